@@ -109,7 +109,9 @@ class Register:
                         alias_slice.stop,
                         1 if alias_slice.step is None else alias_slice.step,
                     )
-                    if len(indices) > 0 and (
+                    # (bool(range), unlike len(range), does not overflow for
+                    # very large registers)
+                    if indices and (
                         indices[0] >= alias_from.size or indices[-1] < 0
                     ):
                         raise JaqalError("Index out of range.")
